@@ -33,7 +33,7 @@ def run(ctx):
     ch = ctx.ch
     feats = {"cond": ch.coin(3, 4, "f-cond"), "loop": ch.coin(3, 4, "f-loop"), "cfg": ch.coin(3, 4, "f-cfg"),
              "calls": ch.coin(3, 4, "f-calls"), "poly": ch.coin(1, 2, "f-poly"), "meta": ch.coin(1, 2, "f-meta"),
-             "insert": ch.coin(1, 2, "f-insert")}
+             "insert": ch.coin(1, 2, "f-insert"), "refusals": ch.coin(1, 4, "f-refusals")}
     cap = 25 + ch.draw(60 if ctx.cfg.get("tier") != "thorough" else 150, "max-steps")
     try:
         sim = BuilderSim(ctx, features=feats, max_steps=cap)
